@@ -82,6 +82,7 @@ fn kind_name(op: &Op) -> &'static str {
         Op::Twin { .. } => "Twin",
         Op::TeardownCalls { .. } => "TeardownCalls",
         Op::LocalBurst { .. } => "LocalBurst",
+        Op::HoldChild => "HoldChild",
         Op::Collect { .. } => "Collect",
         Op::UnwindScope { .. } => "UnwindScope",
         Op::ScopeBurst { .. } => "ScopeBurst",
